@@ -3,12 +3,39 @@
 Shape (C): full product  numerical registry entry  x  representation.  The
 entries are the call recipes of ``mcphot.ref.registry`` that take image data
 (the same recipes C10 uses); the scene is integer valued, so every
-representation holds exactly the same numbers:
+representation holds exactly the same numbers.  Representations:
 
-    f8 (baseline) | f4 | i4 | i8 | big-endian >f8 | Fortran order | strided view |
-    MaskedArray with an all-False mask | MaskedArray with nomask | NDData |
-    Quantity with the same unit on every companion argument            (must agree)
-    Quantity data + plain companions | plain data + Quantity companions (must raise)
+ (a) dtype x byte order, full product
+         {f8, f4, i1, i2, i4, i8, u1, u2, u4, u8} x {little, big endian}
+     (C-contiguous ndarray; error / background / kernel arrays are given in the
+     same dtype).  A type can hold "the same numbers" only if they fit, so the
+     float64 baseline of a representation is run in the *value domain* of its
+     type class: 'full' (the scene as it is: floats, signed >= 16 bit),
+     'nonneg' (negative pixels of the background-subtracted image clipped to 0:
+     unsigned >= 16 bit), 'byte' (a fainter exposure of the scene, data x 0.15
+     rounded, within 0..127: uint8 and int8; the error map keeps its values
+     4..30, whose squares do not fit into 8 bits);
+ (b) memory layout {Fortran order, strided view} of the float64 array; thorough
+     tier: the full product (a) x {Fortran, strided} in addition;
+ (c) containers: MaskedArray with an all-False mask, MaskedArray with nomask,
+     NDData, Quantity with the same unit on every companion argument, NDData
+     carrying the unit (with Quantity companions);
+                                                                   (must agree)
+ (d) unit mixing, as a block: Quantity data + plain companions, plain data +
+     Quantity companions                                           (must raise)
+ (e) unit mixing, one companion at a time.  The *companions* of a recipe are
+     the unit-ful arguments other than the data that it hands out (error,
+     background, convolved_data, bkg_error, effective_gain, local_bkg,
+     threshold, peakmax, init_params flux column); for every companion S:
+        solo_plain:S  data and every other companion in Jy, S alone plain
+        solo_unit:S   data and every other companion plain, S alone in Jy
+                                                                   (must raise)
+        other_unit:S  everything in Jy, S in mJy with the numbers x 1000 (the
+                      same physical quantity): the call must raise, or every
+                      result read from it must equal the all-Jy result.
+     Which calls receive S is tracked by the context: the call is handed S's
+     value, or an object built from it (a finder made with the threshold, a
+     table holding the flux column, the catalog returned by the constructor).
 
 Oracle (metamorphic, no expected numbers):
  * every step (function call, constructor, every public property / argument-less
@@ -19,9 +46,11 @@ Oracle (metamorphic, no expected numbers):
    running the f8 baseline on 2 x data: every value scales by exactly 2**k)
    carries  (baseline unit) * Jy**k ;
  * a step that receives the data and a unit-ful companion raises when only one
-   of them carries units.
+   of them carries units (d, e); a convertible but different unit is rejected
+   or converted, never used as raw numbers (e).
 Exempt: Background2D value comparison for integer input (documented: output has
 the integer dtype of the input, i.e. is rounded).
+Not enumerated (outside the property's list): float16 and bool images.
 """
 import re
 
@@ -32,17 +61,33 @@ from ..runner import Acc
 
 PROPERTY = 'C15'
 LEVEL = 'exploration'
-RULE = ('full Cartesian product: every numerical registry recipe (entry points taking image data) x representation '
-        '{f4, i4, i8, big-endian, Fortran order, strided view, MaskedArray(empty mask), MaskedArray(nomask), NDData, Quantity, '
-        'mixed unit-ful/unit-less (2 ways)} x data condition {clean, masked} (+ negatives in the thorough tier); each recipe '
-        'executes its steps (call, then every public property / argument-less method of the result) and every step output '
-        'is compared with the float64 baseline; one evaluation = one compared step; a step is non-trivial when the '
-        'baseline step succeeded and returned at least one number; distinct = distinct (step label, representation, condition)')
-ASSUMPTIONS = ['the scene is integer valued (|values| < 2**24) so that f4 / i4 / i8 hold exactly the float64 numbers',
+RULE = ('full Cartesian product: every numerical registry recipe (entry points taking image data) x representation x data '
+        'condition {clean, masked} (+ negatives in the thorough tier).  Representations: the full product dtype {f8, f4, i1, i2, '
+        'i4, i8, u1, u2, u4, u8} x byte order {little, big} (each compared with the float64 baseline run in the value domain '
+        'its type can hold: full / non-negative / 7-bit); layouts {Fortran order, strided view} (thorough: x every dtype and '
+        'byte order); containers {MaskedArray(empty mask), MaskedArray(nomask), NDData, Quantity, NDData with unit}; unit mixing as a block (2 '
+        'ways) and one companion at a time: every unit-ful companion argument the recipe hands out (error, background, '
+        'convolved_data, bkg_error, effective_gain, local_bkg, threshold, peakmax, flux column) x {alone plain, alone unit-ful, '
+        'alone in mJy instead of Jy}.  Each recipe executes its steps (call, then every public property / argument-less method '
+        'of the result) and every step output is compared with the float64 baseline (unit mixing: the steps that receive the '
+        'data and the companion must raise; other unit: raise or equal the all-Jy result); one evaluation = one compared step; '
+        'a step is non-trivial when the baseline step succeeded and returned at least one number (mixing: when the call '
+        'receives the companion); distinct = distinct (step label, representation, condition)')
+ASSUMPTIONS = ['the scene is integer valued (|values| < 2**15) so that every float / signed type of >= 16 bit holds exactly the '
+               'float64 numbers; unsigned types are compared on the scene with negative pixels clipped to 0, 8-bit types on '
+               'a fainter exposure (x 0.15, rounded, within 0..127), each against a float64 baseline of the same numbers '
+               '(asserted per run: the array handed over has the dtype and equals the baseline array)',
                'float64 little-endian C-contiguous ndarray is the reference representation',
                'units: outputs homogeneous of integer degree k in the data (exact scaling by 2) carry baseline_unit * data_unit**k; '
                'outputs of no integer degree (magnitudes, flags) are only required to match in value',
-               'Quantity / NDData are demanded only where the API documents them (registry flags units / nddata)']
+               'Quantity / NDData are demanded only where the API documents them (registry flags units / nddata)',
+               'which calls receive a companion is derived by the context from the objects a call is given (the companion itself '
+               'or an object built from it in an earlier step); a companion carried by an object but documented to be unused by '
+               'the call (the finder of PSFPhotometry when init_params are given) is declared in the recipe',
+               'a raised ValueError / TypeError / astropy UnitsError is a rejection; any other exception is a crash',
+               'after a call on an object was rejected, later reads of that object are not judged (state after an error)',
+               'an unsigned / 8-bit kernel or convolved image that cannot hold its values stays float64 (counted in the evidence)',
+               'float16 and bool images are not in the property\'s list of representations and are not enumerated']
 
 # -- tolerances ---------------------------------------------------------------
 # Same numbers in, same algorithm: every difference is floating-point
@@ -61,9 +106,14 @@ RTOL_FIT = 1e-9
 # SigmaClip, the documented clipping engine, computes in float32 for integer
 # input).  float32 / integers hold the scene exactly; arithmetic carried out in
 # float32 has eps = 6e-8 per operation: 1e-5 of scale (DESIGN C15); measured
-# worst case 2.7e-7 (SExtractorBackground, f4), fits 6.6e-8 (PSFPhotometry cfit).
+# worst case over seeds 0-2: 2.7e-7 (SExtractorBackground, f4).  Every integer
+# type of either byte order measured 0 for the fits and <= 2.3e-7 elsewhere (the
+# code promotes to float64 or float32 before computing).  Fit outputs: the
+# parameter errors from the covariance matrix amplify the float32 rounding of
+# the data by the conditioning of the fit: measured worst case 1.6e-6
+# (IterativePSFPhotometry y_err, f4 / big-endian f4, masked, seed 2): 1e-4.
 RTOL_F4 = 1e-5
-RTOL_F4_FIT = 1e-5
+RTOL_F4_FIT = 1e-4
 FIT_STEPS = re.compile(r'centroid_1dg|centroid_2dg|centroid_sources\[[12]dg|find_peaks\[centroid_2dg|gaussian_f|PSFPhotometry|'
                        r'fit_2dgaussian|fit_fwhm|fwhm|Ellipse|Isophote|build_ellipse_model|EllipseFitter|centroid_win|kron|'
                        r'fluxfrac|make_kron')
@@ -100,17 +150,40 @@ def numeric_recipes():
     return [r for r in R.RECIPES.values() if r.numeric]
 
 
-def reps_for(r):
+NEW_DTYPE_REPS = tuple(rep for rep in R.C15_DTYPE_REPS if rep not in R.C15_REPS)
+INT_REPS = frozenset(rep for rep in R.C15_DTYPE_REPS if np.dtype(R.DTYPE_OF_REP[rep]).kind in 'iu')
+# representations judged with the float32 tolerance: float32 and every integer type (either byte order)
+F4_CLASS = frozenset(rep for rep in R.C15_DTYPE_REPS if R.DTYPE_OF_REP[rep] != '>f8')
+
+
+def dtype_of(rep):
+    """The dtype member of a 'dtype' or 'dtype@layout' representation (else None)."""
+    d = rep.split('@', 1)[0]
+    return d if d in R.DTYPE_OF_REP else None
+
+
+def reps_for(r, tier='quick'):
+    """Representations of the whole argument set (the per-companion ones are
+    enumerated from the companions the recipe hands out: see solo_reps)."""
     out = []
-    for rep in R.C15_REPS:
+    for rep in R.C15_REPS + ('nddata_q',) + NEW_DTYPE_REPS:
         if rep == 'nddata' and not r.nddata:
+            continue
+        if rep == 'nddata_q' and not (r.nddata and r.units):
             continue
         if rep == 'quantity' and not r.units:
             continue
         out.append(rep)
+    if tier == 'thorough':
+        out += [f'{d}@{lay}' for d in R.C15_DTYPE_REPS for lay in R.C15_LAYOUTS]
     if r.units:
         out += list(R.C15_MIXED)
     return out
+
+
+def solo_reps(cq):
+    """companion slots of the all-Quantity run x {alone plain, alone unit-ful, alone in another unit}"""
+    return [f'{mode}:{slot}' for slot in cq.slots for mode in R.C15_SOLO]
 
 
 def plan(tier, seed):
@@ -119,7 +192,14 @@ def plan(tier, seed):
 
 def site_of(label, rep):
     base = re.sub(r'\[[^\]]*\]', '', label)
-    cls = {'i4': 'int', 'i8': 'int'}.get(rep, rep)
+    d = dtype_of(rep)
+    if d is not None and d not in ('f4', 'be'):
+        dt = np.dtype(R.DTYPE_OF_REP[d])
+        cls = ('be_' if d.startswith('be_') else '') + {'i': 'int', 'u': 'uint', 'f': 'f' + str(dt.itemsize)}[dt.kind]
+    else:
+        cls = d or rep
+    if '@' in rep:
+        cls += '@' + rep.split('@', 1)[1]
     return f'{base}:{cls}'
 
 
@@ -202,27 +282,67 @@ def nnum(leafs):
     return sum(1 for v in leafs.values() if isinstance(v, tuple) and v[0] == 'num' and v[1].size)
 
 
-def run_recipe_cond(acc, r, cond, seed, only_rep=None, sample=False):
+class Runs:
+    """The reference runs of one (recipe, condition), computed on demand:
+    the float64 baseline of each value domain, the float64 baseline on 2 x data
+    (degree of homogeneity) and the all-Quantity run."""
+
+    def __init__(self, name, cond, seed):
+        self.name, self.cond, self.seed = name, cond, seed
+        self._base = {}
+        self._scaled = None
+        self._quantity = None
+
+    def base(self, domain):
+        if domain not in self._base:
+            c = R.run_recipe(self.name, 'f8', self.cond, self.seed, integer_scene=True, domain=domain)
+            out = {lab: R.norm(v) for lab, v in c.out.items()}
+            self._base[domain] = (c, out, {lab: leaves(v) for lab, v in out.items() if not isinstance(v, R.Raised)})
+        return self._base[domain]
+
+    def scaled(self):
+        if self._scaled is None:
+            s2 = R.run_recipe(self.name, 'f8', self.cond, self.seed, integer_scene=True, scale=2.0)
+            self._scaled = {lab: leaves(R.norm(v)) for lab, v in s2.out.items() if not isinstance(v, R.Raised)}
+        return self._scaled
+
+    def quantity(self):
+        if self._quantity is None:
+            c = R.run_recipe(self.name, 'quantity', self.cond, self.seed, integer_scene=True)
+            self._quantity = (c, {lab: leaves(R.norm(v)) for lab, v in c.out.items() if not isinstance(v, R.Raised)})
+        return self._quantity
+
+
+def run_recipe_cond(acc, r, cond, seed, only_rep=None, sample=False, tier='quick'):
     name = r.name
-    base = R.run_recipe(name, 'f8', cond, seed, integer_scene=True)
-    base_out = {lab: R.norm(v) for lab, v in base.out.items()}
-    base_leaves = {lab: leaves(v) for lab, v in base_out.items() if not isinstance(v, R.Raised)}
-    scaled_leaves = None
-    for rep in reps_for(r):
+    runs = Runs(name, cond, seed)
+    for rep in reps_for(r, tier):
         if only_rep is not None and rep != only_rep:
             continue
-        c = R.run_recipe(name, rep, cond, seed, integer_scene=True)
+        domain = R.DOMAIN_OF_REP.get(dtype_of(rep), 'full')
+        if domain != 'full' and cond == 'negatives':
+            acc.skip('unsigned / 8-bit representation x negatives condition (the type cannot hold the negative pixels)')
+            continue
+        c = R.run_recipe(name, rep, cond, seed, integer_scene=True, domain=domain)
         if c is None:
             acc.skip('combination not applicable')
             continue
+        base, base_out, base_leaves = runs.base(domain)
+        if dtype_of(rep) is not None:
+            # the representation must really have been used for the image, with exactly the baseline's numbers
+            d, d0 = c.held.get('data'), base.held.get('data')
+            if isinstance(d, np.ndarray) and isinstance(d0, np.ndarray):
+                if d.dtype.str != R.DTYPE_OF_REP[dtype_of(rep)] or not np.array_equal(d.astype(float), d0):
+                    raise AssertionError(f'{name}: representation {rep} does not hold the numbers of the baseline '
+                                         f'({d.dtype.str}, domain {domain})')
+            if c.uncast:
+                acc.counters['arguments_left_float64_next_to_a_narrow_integer_image'] += len(c.uncast)
         case0 = {'recipe': name, 'rep': rep, 'cond': cond}
         mixed = rep in R.C15_MIXED
         if mixed and not (c.uses_companion and c.uses_data):
             acc.skip('recipe has no unit-ful companion argument (nothing to mix)')
             continue
-        if rep == 'quantity' and scaled_leaves is None:
-            s2 = R.run_recipe(name, 'f8', cond, seed, integer_scene=True, scale=2.0)
-            scaled_leaves = {lab: leaves(R.norm(v)) for lab, v in s2.out.items() if not isinstance(v, R.Raised)}
+        scaled_leaves = runs.scaled() if rep in ('quantity', 'nddata_q') else None
         for i, (label, status) in enumerate(c.steps):
             b = base_out.get(label, None)
             case = dict(case0, step=label)
@@ -258,14 +378,14 @@ def run_recipe_cond(acc, r, cond, seed, only_rep=None, sample=False):
                               detail=f'step {label!r} with data representation {rep!r}')
                 continue
             ol = leaves(R.norm(c.out.get(label)))
-            if rep == 'nddata' and 'nddata.data' in ol and '<value>' in bl:
+            if rep in R.NDDATA_REPS and 'nddata.data' in ol and '<value>' in bl:
                 ol = {'<value>': ol['nddata.data']}      # an NDData in gives an NDData out (documented): compare its data
             acc.outcome((label, rep, len(ol)))
-            if rep in ('i4', 'i8') and label.startswith('Background2D'):
+            if dtype_of(rep) in INT_REPS and label.startswith('Background2D'):
                 acc.counters['exempt_background2d_integer_output'] += 1
                 continue
             fit = bool(FIT_STEPS.search(label))
-            rtol = (RTOL_F4_FIT if fit else RTOL_F4) if rep in ('f4', 'i4', 'i8') else (RTOL_FIT if fit else RTOL)
+            rtol = (RTOL_F4_FIT if fit else RTOL_F4) if dtype_of(rep) in F4_CLASS else (RTOL_FIT if fit else RTOL)
             if set(ol) != set(bl):
                 acc.violation('repr-differs', site_of(label, rep), case, observed=sorted(set(ol) ^ set(bl))[:6],
                               expected='same output structure as the float64 baseline', detail=f'step {label!r}')
@@ -275,9 +395,10 @@ def run_recipe_cond(acc, r, cond, seed, only_rep=None, sample=False):
                 if msg:
                     acc.violation('repr-differs', site_of(label, rep), dict(case, output=path), observed=msg,
                                   expected=f'equal to the float64 baseline within rtol {rtol:g} of scale',
-                                  detail=f'step {label!r} output {path!r} with data representation {rep!r}')
+                                  detail=f'step {label!r} output {path!r} with data representation {rep!r}'
+                                         + (f' (value domain {domain!r})' if domain != 'full' else ''))
                     break
-            if rep == 'quantity':
+            if rep in ('quantity', 'nddata_q'):
                 sl = scaled_leaves.get(label)
                 for path, a in bl.items():
                     o = ol[path]
@@ -302,29 +423,134 @@ def run_recipe_cond(acc, r, cond, seed, only_rep=None, sample=False):
                                                                       f'float64 baseline unit {a[2]!r})',
                                   detail=f'step {label!r} output {path!r}' + (' (documented to be in data units)' if documented else ''))
                     break
+    if r.units and (only_rep is None or ':' in only_rep):
+        run_solo(acc, r, cond, seed, runs, only_rep, sample)
+
+
+def to_unit_of(a, o):
+    """Leaf ``o`` expressed in the unit of leaf ``a`` (None when not convertible)."""
+    import astropy.units as u
+    if a[2] == o[2]:
+        return o
+    try:
+        f = (u.Unit(o[2]) if o[2] not in (None, '') else u.dimensionless_unscaled).to(
+            u.Unit(a[2]) if a[2] not in (None, '') else u.dimensionless_unscaled)
+    except Exception:
+        return None
+    return ('num', o[1] * f, a[2])
+
+
+def run_solo(acc, r, cond, seed, runs, only_rep, sample):
+    """One companion at a time.  The companions (slots) are the unit-ful
+    arguments other than the data that the recipe hands out; the steps that
+    receive a slot are those whose call is given the slot's value or an object
+    built from it (tracked by the context)."""
+    name = r.name
+    cq, q_leaves = runs.quantity()
+    if not (cq.uses_companion and cq.uses_data):
+        return
+    base, base_out, _ = runs.base('full')
+    qstatus = dict(cq.steps)
+    for rep in solo_reps(cq):
+        if only_rep is not None and rep != only_rep:
+            continue
+        mode, slot = rep.split(':', 1)
+        c = R.run_recipe(name, rep, cond, seed, integer_scene=True)
+        case0 = {'recipe': name, 'rep': rep, 'cond': cond}
+        origin = None            # the first accepted call that received the slot: where a wrongly accepted unit entered
+        spoiled = set()          # objects (built by steps) that were given to a call that raised: their state is not judged
+        for label, status in c.steps:
+            if slot not in c.step_slots.get(label, ()):
+                continue         # the call does not receive this companion: identical to the all-Quantity / all-plain call
+            built = c.step_built.get(label, set())
+            if status != 'ok':
+                if mode == 'other_unit' and built & spoiled:
+                    continue
+                spoiled |= built
+            elif mode == 'other_unit' and built & spoiled:
+                acc.skip('reads an object after a call on it was rejected (state after an error is not judged)')
+                continue
+            if mode != 'other_unit' and label not in c.mix_steps:
+                continue         # no data in this call (a constructor taking thresholds only)
+            if isinstance(base_out.get(label), R.Raised) or qstatus.get(label) != 'ok':
+                acc.skip('float64 or all-Quantity call raises (nothing to mix)')
+                continue
+            case = dict(case0, step=label)
+            acc.case(nontrivial=True, key=(label, rep, cond), sample=case if (sample and origin is None and mode == 'solo_plain') else None)
+            acc.counters[f'companion judged: {name} / {slot}'] += 1
+            rejected = status != 'ok' and c.out[label].is_rejection
+            acc.outcome((label, rep, 'rejected' if rejected else status))
+            if mode != 'other_unit':
+                if not rejected:
+                    acc.violation('mixed-accepted', site_of(label, rep), case,
+                                  observed='call returned normally' if status == 'ok' else repr(c.out[label]),
+                                  expected='ValueError / TypeError / UnitsError (unit-ful mixed with unit-less input)',
+                                  detail=f'step {label!r}: ' + (f'the data and every other companion are Quantities, {slot!r} alone is a plain number'
+                                                               if mode == 'solo_plain' else
+                                                               f'the data and every other companion are plain numbers, {slot!r} alone is a Quantity'))
+                continue
+            if rejected:
+                continue
+            if origin is None:
+                origin = label
+            site = site_of(origin, rep)
+            want = 'rejected (ValueError / TypeError / UnitsError) or converted: the result of the call with everything in Jy'
+            if status != 'ok':
+                acc.violation('other-unit', site, case, observed=repr(c.out[label]), expected=want,
+                              detail=f'step {label!r}: {slot!r} given in mJy (same physical values), data and other companions in Jy')
+                continue
+            ql = q_leaves[label]
+            ol = leaves(R.norm(c.out.get(label)))
+            rtol = RTOL_FIT if FIT_STEPS.search(label) else RTOL
+            if set(ol) != set(ql):
+                acc.violation('other-unit', site, case, observed=sorted(set(ol) ^ set(ql))[:6], expected=want, detail=f'step {label!r}')
+                continue
+            for path, a in ql.items():
+                o = ol[path]
+                if isinstance(a, tuple) and a[0] == 'num' and isinstance(o, tuple) and o[0] == 'num':
+                    o = to_unit_of(a, o)
+                    msg = f'unit {ol[path][2]!r} vs {a[2]!r}' if o is None else cmp_leaf(a, o, rtol)
+                else:
+                    msg = cmp_leaf(a, o, rtol)
+                if msg:
+                    acc.violation('other-unit', site, dict(case, output=path), observed=msg, expected=want,
+                                  detail=f'step {label!r} output {path!r}: {slot!r} given in mJy (numbers x 1000: the same physical '
+                                         f'values), data and every other companion in Jy; accepted at step {origin!r}')
+                    break
 
 
 def run_unit(unit, tier, seed):
     acc = Acc()
-    run_recipe_cond(acc, R.RECIPES[unit['recipe']], unit['cond'], seed, sample=True)
+    run_recipe_cond(acc, R.RECIPES[unit['recipe']], unit['cond'], seed, sample=True, tier=tier)
     return acc
 
 
 def replay(case, seed):
     acc = Acc()
-    run_recipe_cond(acc, R.RECIPES[case['recipe']], case['cond'], seed, only_rep=case['rep'])
+    run_recipe_cond(acc, R.RECIPES[case['recipe']], case['cond'], seed, only_rep=case['rep'], tier='thorough')
     return acc
 
 
 def describe(tier, seed):
     cov = R.coverage()
     num = numeric_recipes()
-    return {'alphabet': {'recipes': len(num), 'representations': ['f8 (baseline)'] + list(R.C15_REPS) + list(R.C15_MIXED),
+    reps = ['f8 (baseline)'] + [rep for rep in R.C15_REPS + ('nddata_q',) + NEW_DTYPE_REPS]
+    if tier == 'thorough':
+        reps += [f'{d}@{lay}' for d in R.C15_DTYPE_REPS for lay in R.C15_LAYOUTS]
+    reps += list(R.C15_MIXED) + [f'{mode}:<companion>' for mode in R.C15_SOLO]
+    return {'alphabet': {'recipes': len(num), 'representations': reps,
+                         'dtype_of_representation': {rep: R.DTYPE_OF_REP[rep] for rep in R.C15_DTYPE_REPS},
+                         'value_domains': {d: {'clip': list(R.DOMAINS[d]), 'representations': ['f8 (baseline)'] + [
+                             rep for rep in R.C15_DTYPE_REPS if R.DOMAIN_OF_REP.get(rep, 'full') == d]} for d in R.DOMAINS},
+                         'byte_domain_scale': R.BYTE_SCALE,
+                         'companion_modes': list(R.C15_SOLO),
+                         'companions': 'per recipe: see counters "companion judged: <recipe> / <companion>" (number of judged calls)',
                          'conditions': list(conds(tier))},
             'numerical_recipes': [r.name for r in num],
             'recipes_without_image_argument (C10 only)': [r.name for r in R.RECIPES.values() if not r.numeric],
             'quantity_demanded_for': [r.name for r in num if r.units],
             'nddata_demanded_for': [r.name for r in num if r.nddata],
+            'not_enumerated': ['float16 images', 'bool images', 'Quantity pixel positions'],
             'public_callables': cov['public_callables'],
             'uncovered': cov['uncovered'],
             'unclassified_public_callables': cov['unclassified'],
